@@ -1,6 +1,7 @@
 package main
 
 import (
+	"os"
 	"strconv"
 	"strings"
 )
@@ -58,6 +59,14 @@ var obligationOnly = map[string]bool{"C05": true, "C06": true, "C12": true, "C16
 
 func evalJobs(prop string, ts []tmpl, depth, W, S int, keys []string) []*Job {
 	var out []*Job
+	if e := os.Getenv("VERIF_XP"); e != "" { // experiment: "depth,W,S,nkeys"
+		f := strings.Split(e, ",")
+		depth, _ = strconv.Atoi(f[0])
+		W, _ = strconv.Atoi(f[1])
+		S, _ = strconv.Atoi(f[2])
+		nk, _ := strconv.Atoi(f[3])
+		keys = []string{"a", "b", "", "é", "c"}[:nk]
+	}
 	for _, t := range ts {
 		j := t.job(prop, depth)
 		if obligationOnly[prop] {
@@ -76,53 +85,58 @@ func evalBounds(tier string, fam string, n int, depth, W, S int, keys []string) 
 		"numbers_in_document": "all finite float64", "loop_unwind_per_activation": 64}
 }
 
+// evalCfg: document bounds of one tier of an evaluation-family check.
+type evalCfg struct {
+	d, w, s int
+	keys    []string
+	inner   []string // key universe of nested objects (nil: same as keys)
+}
+
 func init() {
-	keysQ := []string{"a", "b", ""}
-	mk := func(prop string, fam func(string) []tmpl, famName string, dq, wq, dt, wt int, explain string, outside []string) {
+	ab := []string{"a", "b"}
+	abe := []string{"a", "b", ""}
+	abeu := []string{"a", "b", "", "é"}
+	mk := func(prop string, fam func(string) []tmpl, famName string, q, t evalCfg, explain string, outside []string) {
+		cfg := func(tier string) evalCfg {
+			if tier == "thorough" {
+				return t
+			}
+			return q
+		}
 		specs[prop] = &CheckSpec{Prop: prop, Level: "model_checking",
 			Jobs: func(tier string) []*Job {
-				if tier == "thorough" {
-					js := evalJobs(prop, fam(tier), dt, wt, 2, append(keysQ, "é"))
-					for _, j := range js {
-						j.InnerKeys = []string{"a", "b"}
-					}
-					return js
+				c := cfg(tier)
+				js := evalJobs(prop, fam(tier), c.d, c.w, c.s, c.keys)
+				for _, j := range js {
+					j.InnerKeys = c.inner
 				}
-				return evalJobs(prop, fam(tier), dq, wq, 1, keysQ)
+				return js
 			},
 			Bounds: func(tier string) map[string]interface{} {
-				if tier == "thorough" {
-					return evalBounds(tier, famName, len(fam(tier)), dt, wt, 2, append(keysQ, "é"))
+				c := cfg(tier)
+				b := evalBounds(tier, famName, len(fam(tier)), c.d, c.w, c.s, c.keys)
+				if c.inner != nil {
+					b["nested_object_key_universe"] = c.inner
 				}
-				return evalBounds(tier, famName, len(fam(tier)), dq, wq, 1, keysQ)
+				return b
 			},
 			Assumptions: commonAssumptions, Outside: outside, Explain: explain,
 		}
 	}
-	mk2 := func(prop string, fam func(string) []tmpl, famName string, dq, wq, dt, wt int, explain string, outside []string) {
-		mk(prop, fam, famName, dq, wq, dt, wt, explain, outside)
-		sp := specs[prop]
-		sp.Jobs = func(tier string) []*Job {
-			if tier == "thorough" {
-				return evalJobs(prop, fam(tier), dt, wt, 2, keysQ)
-			}
-			return evalJobs(prop, fam(tier), dq, wq, 1, []string{"a", "b"})
-		}
-		sp.Bounds = func(tier string) map[string]interface{} {
-			if tier == "thorough" {
-				return evalBounds(tier, famName, len(fam(tier)), dt, wt, 2, keysQ)
-			}
-			return evalBounds(tier, famName, len(fam(tier)), dq, wq, 1, []string{"a", "b"})
-		}
-	}
 	outs := []string{"expressions outside the enumerated template family (only their integers and the documents are solver variables)",
 		"documents deeper / arrays longer / strings longer than the bounds", "Go-struct documents (C18)"}
-	mk("C01", familyCore, "CORE", 2, 2, 3, 3, "public Search on core-fragment templates vs. the specification evaluator, for every document and index in the bounds", outs)
-	mk2("C02", familyProj, "PROJ", 2, 2, 2, 2, "public Search on projection templates vs. the specification evaluator (object wildcards compared as multisets, every member order explored)", outs)
-	mk2("C09", familyFunc, "FUNC", 2, 3, 2, 3, "every built-in on every argument tuple over two lazy document members and an expression reference, vs. the function specification (value and error-ness)", outs)
-	mk2("C10", familyFunc, "FUNC", 2, 3, 2, 3, "every built-in on every argument tuple incl. wrong arity and expression references: an ill-typed call must be an error, never a value, never a panic", outs)
+	// thorough bounds are the deepest that ran to completion on the unchanged tree (DESIGN 0.8)
+	mk("C01", familyCore, "CORE", evalCfg{2, 2, 1, abe, nil}, evalCfg{4, 4, 2, abeu, ab},
+		"public Search on core-fragment templates vs. the specification evaluator, for every document and index in the bounds", outs)
+	mk("C02", familyProj, "PROJ", evalCfg{2, 2, 1, ab, nil}, evalCfg{2, 2, 2, ab, nil},
+		"public Search on projection templates vs. the specification evaluator (object wildcards compared as multisets, every member order explored)", outs)
+	mk("C09", familyFunc, "FUNC", evalCfg{2, 3, 1, ab, nil}, evalCfg{2, 4, 2, abe, nil},
+		"every built-in on every argument tuple over two lazy document members and an expression reference, vs. the function specification (value and error-ness)", outs)
+	mk("C10", familyFunc, "FUNC", evalCfg{2, 3, 1, ab, nil}, evalCfg{2, 4, 2, abe, nil},
+		"every built-in on every argument tuple incl. wrong arity and expression references: an ill-typed call must be an error, never a value, never a panic", outs)
 	specs["C10"].Panics = true
-	mk2("C11", familyCtx, "CTX", 2, 2, 2, 2, "an erroring sub-expression in every strict (and every non-strict) position of every construct: Search errs iff the specification says the error is reached", outs)
+	mk("C11", familyCtx, "CTX", evalCfg{2, 2, 1, ab, nil}, evalCfg{3, 3, 2, abe, nil},
+		"an erroring sub-expression in every strict (and every non-strict) position of every construct: Search errs iff the specification says the error is reached", outs)
 	for _, p := range []string{"C09", "C10"} {
 		sp := specs[p]
 		inner := sp.Jobs
@@ -146,7 +160,8 @@ func init() {
 			return js
 		}
 	}
-	mk("C07", familyBool, "BOOL", 2, 2, 2, 2, "truthiness, logical operators and comparators vs. the specification, all finite doubles and strings in bounds", outs)
+	mk("C07", familyBool, "BOOL", evalCfg{2, 2, 1, abe, nil}, evalCfg{2, 2, 2, abe, nil},
+		"truthiness, logical operators and comparators vs. the specification, all finite doubles and strings in bounds", outs)
 }
 
 func cmdTemplates(args []string) {
@@ -323,9 +338,25 @@ func init() {
 // frameJobs: families with their own array bound (functions 3, the rest 2).
 func frameJobs(prop string, tier string) []*Job {
 	keys := []string{"a", "b"}
+	if tier == "thorough" {
+		js := evalJobs(prop, frameFuncTemplates(tier), 2, 4, 2, []string{"a", "b", ""})
+		js = append(js, evalJobs(prop, frameOtherTemplates(tier), 2, 2, 2, keys)...)
+		return js
+	}
 	js := evalJobs(prop, frameFuncTemplates(tier), 2, 3, 1, keys)
 	js = append(js, evalJobs(prop, frameOtherTemplates(tier), 2, 2, 1, keys)...)
 	return js
+}
+
+func frameBounds(tier, fam string, n int) map[string]interface{} {
+	if tier == "thorough" {
+		b := evalBounds(tier, fam, n, 2, 4, 2, []string{"a", "b", ""})
+		b["max_array_length"] = "4 for function templates, 2 for projection/context/core templates (object keys a, b there)"
+		return b
+	}
+	b := evalBounds(tier, fam, n, 2, 3, 1, []string{"a", "b"})
+	b["max_array_length"] = "3 for function templates, 2 for projection/context/core templates"
+	return b
 }
 
 func frameFamilies(tier string) []tmpl {
@@ -363,7 +394,7 @@ func init() {
 			return frameJobs("C06", tier)
 		},
 		Bounds: func(tier string) map[string]interface{} {
-			return evalBounds(tier, "FUNC+PROJ+CTX+CORE/3+literal-reordering", len(frameFamilies(tier)), 2, 3, 1, []string{"a", "b"})
+			return frameBounds(tier, "FUNC+PROJ+CTX+CORE/3+literal-reordering", len(frameFamilies(tier)))
 		},
 		Assumptions: frameAssume,
 		Outside:     []string{"writes performed inside stubbed standard-library calls (sort.Stable is interpreted, so its swaps are seen)", "templates outside the families", "documents beyond the bounds"},
@@ -398,7 +429,7 @@ func init() {
 					js = append(js, j)
 				}
 			}
-			one := frameJobs("C12", "quick")
+			one := frameJobs("C12", tier)
 			for _, j := range one {
 				j.LockedWritesOK = true
 			}
@@ -410,7 +441,13 @@ func init() {
 			return js
 		},
 		Bounds: func(tier string) map[string]interface{} {
-			return evalBounds(tier, "as C06, entered through (*JMESPath).Search on a compiled expression and through the one-shot Search", len(frameFamilies(tier)), 2, 3, 1, []string{"a", "b"})
+			b := frameBounds("quick", "as C06, entered through (*JMESPath).Search on a compiled expression (arrays <= 3/2, both tiers) and through the one-shot Search", len(frameFamilies(tier)))
+			if tier == "thorough" {
+				b["one_shot_search"] = "all templates, arrays <= 4 (functions) / 2, strings <= 2 bytes"
+			} else {
+				b["one_shot_search"] = "every fourth template"
+			}
+			return b
 		},
 		Assumptions: append(append([]string{}, frameAssume...), "Go memory model: calls that only read shared locations and write only their own allocations have no conflicting accesses under any schedule (paper step of the reduction)", "stubbed standard-library functions are goroutine-safe"),
 		Outside:     []string{"interleavings are NOT enumerated: the property is reduced to the sequential frame obligation", "thread-safety of stubbed stdlib internals"},
@@ -572,10 +609,19 @@ func init() {
 	specs["C16"] = &CheckSpec{Prop: "C16", Level: "model_checking",
 		Jobs: func(tier string) []*Job {
 			keys := []string{"a", "b"}
-			js := evalJobs("C16", familyFunc(tier), 2, 3, 1, keys)
-			js = append(js, evalJobs("C16", familyProj("quick"), 2, 2, 1, keys)...)
-			js = append(js, evalJobs("C16", familyCore("quick"), 2, 2, 1, keys)...)
-			js = append(js, evalJobs("C16", familyBool("quick"), 2, 2, 1, keys)...)
+			var js []*Job
+			if tier == "thorough" {
+				abe := []string{"a", "b", ""}
+				js = evalJobs("C16", familyFunc(tier), 2, 4, 2, abe)
+				js = append(js, evalJobs("C16", familyProj("quick"), 2, 2, 2, keys)...)
+				js = append(js, evalJobs("C16", familyCore(tier), 3, 3, 2, abe)...)
+				js = append(js, evalJobs("C16", familyBool(tier), 2, 2, 2, keys)...)
+			} else {
+				js = evalJobs("C16", familyFunc(tier), 2, 3, 1, keys)
+				js = append(js, evalJobs("C16", familyProj("quick"), 2, 2, 1, keys)...)
+				js = append(js, evalJobs("C16", familyCore("quick"), 2, 2, 1, keys)...)
+				js = append(js, evalJobs("C16", familyBool("quick"), 2, 2, 1, keys)...)
+			}
 			for _, j := range js {
 				j.NumBound = 1e30
 				j.Props = []string{"C16"}
@@ -584,6 +630,10 @@ func init() {
 		},
 		Bounds: func(tier string) map[string]interface{} {
 			b := evalBounds(tier, "FUNC+PROJ+CORE+BOOL", len(familyFunc(tier))+len(familyProj("quick"))+len(familyCore("quick"))+len(familyBool("quick")), 2, 3, 1, []string{"a", "b"})
+			if tier == "thorough" {
+				b = evalBounds(tier, "FUNC+PROJ+CORE+BOOL", len(familyFunc(tier))+len(familyProj("quick"))+len(familyCore(tier))+len(familyBool(tier)), 2, 4, 2, []string{"a", "b", ""})
+				b["max_array_length"] = "4 for function templates, 3 for core (depth 3), 2 for projection and boolean templates"
+			}
 			b["numbers_in_document"] = "finite float64 with |x| <= 1e30 (the property's 'moderate magnitude')"
 			return b
 		},
